@@ -197,10 +197,25 @@ def tr_valid(tree, consts):
                 and isinstance(rest[2], ast.Assign) and is_self_attr(rest[2].targets[0], '_valid')
                 and isinstance(rest[2].value, ast.Constant) and rest[2].value.value is True
                 and isinstance(rest[3], ast.Return) and is_self_attr(rest[3].value, '_valid'))
+    loop = rest[1] if shape_ok else None
     if not shape_ok:
-        fail(fn, 'AnsiSetting.valid does not have the expected loop shape')
-    c = rest[1].target.id
-    cond = Tr({c: c}, consts).ex(rest[1].body[0].test)
+        # as repaired (F57): the flag is stored only once it is known -
+        # for c in self._str: if <cond>: self._valid = False; return False ; self._valid = True ; return self._valid
+        shape2 = (len(rest) == 3 and isinstance(rest[0], ast.For) and isinstance(rest[0].target, ast.Name) and is_self_attr(rest[0].iter, '_str')
+                  and len(rest[0].body) == 1 and isinstance(rest[0].body[0], ast.If) and not rest[0].body[0].orelse and not rest[0].orelse
+                  and len(rest[0].body[0].body) == 2
+                  and isinstance(rest[0].body[0].body[0], ast.Assign) and is_self_attr(rest[0].body[0].body[0].targets[0], '_valid')
+                  and isinstance(rest[0].body[0].body[0].value, ast.Constant) and rest[0].body[0].body[0].value.value is False
+                  and isinstance(rest[0].body[0].body[1], ast.Return) and isinstance(rest[0].body[0].body[1].value, ast.Constant)
+                  and rest[0].body[0].body[1].value.value is False
+                  and isinstance(rest[1], ast.Assign) and is_self_attr(rest[1].targets[0], '_valid')
+                  and isinstance(rest[1].value, ast.Constant) and rest[1].value.value is True
+                  and isinstance(rest[2], ast.Return) and is_self_attr(rest[2].value, '_valid'))
+        if not shape2:
+            fail(fn, 'AnsiSetting.valid does not have the expected loop shape')
+        loop = rest[0]
+    c = loop.target.id
+    cond = Tr({c: c}, consts).ex(loop.body[0].test)
     return 'Definition gen_valid (s : list Z) : bool :=\n  negb (existsb (fun %s => %s) s).\n' % (c, cond)
 
 
@@ -278,6 +293,11 @@ def check_bounds_prelude(fn, pre):
     """the statements before the guard must be exactly: start = self._slice_val_to_idx(start, 0); end = self._slice_val_to_idx(end, len(self._s))"""
     want = ['start = self._slice_val_to_idx(start, 0)', 'end = self._slice_val_to_idx(end, len(self._s))']
     got = [ast.unparse(x) for x in pre]
+    # as repaired (F45): a bare integer is wrapped in a list first - it only touches `settings` (whose truth value is a parameter
+    # of the generated guard: the model's form_falsy gives it, with FInt never falsy), not the bounds
+    wrap = 'if isinstance(settings, int):\n    settings = [settings]'
+    if got and got[0] == wrap:
+        got = got[1:]
     if got != want:
         fail(fn, '%s: statements before the range guard are %s' % (fn.name, got))
 
